@@ -149,6 +149,7 @@ pub fn uf_to_json(f: &UF) -> J {
         UF::IntPlus5 => json!({"k": "intplus5"}),
         UF::FirstNumber => json!({"k": "firstnumber"}),
         UF::NotFound(n) => json!({"k": "notfound", "name": n}),
+        UF::Raise(k) => json!({"k": "raise", "n": k}),
     }
 }
 
@@ -161,6 +162,7 @@ pub fn uf_from_json(j: &J) -> Option<UF> {
         "intplus5" => UF::IntPlus5,
         "firstnumber" => UF::FirstNumber,
         "notfound" => UF::NotFound(j["name"].as_str()?.to_string()),
+        "raise" => UF::Raise(j["n"].as_u64()? as u8),
         _ => return None,
     })
 }
